@@ -110,7 +110,10 @@ Definition randao_event_ok (c : case) (ev : event) : bool :=
       option_eqb N.eqb (Some a) (provided_account c) && (e =? duty_epoch c)
       && npair_eqb d (DOMAIN_RANDAO, duty_epoch c)
   | ESignBlock _ _ _ _ _ _ _ => false           (* Prepare signs no block *)
-  | _ => true
+  | EAccounts ep l => (ep =? duty_epoch c) && list_eqb N.eqb l [d_validator (c_duty c)]
+                                                (* the account is fetched for the duty's epoch and validator *)
+  | EDomain t ep => (t =? DOMAIN_RANDAO) && (ep =? duty_epoch c)
+  | _ => false                                  (* Prepare asks nothing else *)
   end.
 
 Definition obtained_block (c : case) : option hdr :=
@@ -129,7 +132,11 @@ Definition block_event_ok (c : case) (ev : event) : bool :=
          | None => false
          end
   | ESignRandao _ _ _ => false                  (* Propose signs no RANDAO reveal *)
-  | _ => true
+  | EDomain t ep => (t =? DOMAIN_BEACON_PROPOSER) && (ep =? duty_epoch c)
+  | EGraffiti s v => (s =? d_slot (c_duty c)) && (v =? d_validator (c_duty c))
+  | EAuction s _ pk => (s =? d_slot (c_duty c)) && option_eqb N.eqb (Some pk) (duty_account c)
+  | EProposal s _ _ _ => s =? d_slot (c_duty c)
+  | EAccounts _ _ => false
   end.
 
 Definition count_events (f : event -> bool) (l : list event) : nat := length (filter f l).
